@@ -187,3 +187,11 @@ MODELS[:0] = [(r'(?:^|::)Atomic(Usize)?(::<.*>)?::fetch_update::<', m_fetch_upda
 
 import mirsym as _mm
 _mm.LATE_MODELS.add(m_identity)
+
+
+def m_dur_add(ex, a, t): return z3.simplify(a[0] + a[1])
+def m_dur_sub(ex, a, t): return z3.simplify(a[0] - a[1])
+def m_dur_le(ex, a, t): return target(a[0]) <= target(a[1])
+def m_dur_eq(ex, a, t): return target(a[0]) == target(a[1])
+MODELS[:0] = [(r'^<Duration as Add>::add$', m_dur_add), (r'^<Duration as Sub>::sub$', m_dur_sub), (r'^<Duration as PartialOrd>::le$', m_dur_le),
+              (r'^<Duration as PartialEq>::eq$', m_dur_eq), (r'Instant as Sub<Duration>>::sub$', m_dur_sub)]
